@@ -47,6 +47,9 @@ class AddressIntervalBI(Contract):
         from pyvc.core import to_val
         return {"interval": to_val(res) == self.spec(c0, a.node.t)}
 
+    def result_term(self, c0, a):
+        return SV("val", self.spec(c0, a.node.t))
+
 
 class AddressIntervalBlock(Contract):
     """_address_interval(node: ByteBlock)  (used for address queries inside one byte interval)"""
@@ -76,6 +79,9 @@ class AddressIntervalBlock(Contract):
         from pyvc.core import to_val
         return {"interval": to_val(res) == self.spec(c0, a.node.t)}
 
+    def result_term(self, c0, a):
+        return SV("val", self.spec(c0, a.node.t))
+
 
 class OffsetInterval(Contract):
     target = "util.py::_offset_interval"
@@ -93,6 +99,9 @@ class OffsetInterval(Contract):
     def post(self, c0, c1, a, res):
         from pyvc.core import to_val
         return {"interval": to_val(res) == self.spec(c0, a.node.t)}
+
+    def result_term(self, c0, a):
+        return SV("val", self.spec(c0, a.node.t))
 
 
 # ---------------------------------------------------------------------------------------------
